@@ -164,6 +164,12 @@ class PlaceSession:
                              cluster_barriers=bool(o["cluster"]), scatter_free_agents=bool(o["scatter"]), **kw)
         self.stat = self.w.stat_wire()
 
+    def set_target_ipos(self, pos):
+        """re-assign the target agent's initial position through the public setter (between resets)"""
+        tgt = self.w.agent_list[self.o["target"]]
+        tgt.initial_position = None if pos is None else np.array(pos)
+        self.stat = self.w.stat_wire()
+
     def set_flags(self, o):
         """switch the four options on the live state object through its public setters"""
         self.state.no_overlap_at_reset = bool(o["no"])
@@ -371,6 +377,15 @@ class PlaceProp(core.Prop):
         line = wire.enc(["gplace", sess.stat, pre, ow, list(tape), out])
         d = dict(desc)
         d["which"] = which
+        if desc.get("ipos_seq"):
+            # what follows looks at the world as it is for THIS reset
+            w2 = copy.deepcopy(desc["world"])
+            ip = desc["ipos_seq"][which]
+            if ip is None:
+                w2["agents"][o["target"]].pop("init_pos", None)
+            else:
+                w2["agents"][o["target"]]["init_pos"] = list(ip)
+            desc = dict(desc, world=w2)
         tags = [kind, "stream:" + desc.get("stream", "random"), "reset#%d" % which,
                 "ok" if out[0] == "ok" else "err:" + out[1],
                 "opts:%d%d%d%d" % (o["no"], o["rand"], o["cluster"], o["scatter"])]
@@ -419,6 +434,8 @@ class PlaceProp(core.Prop):
                 break
             if desc.get("opt_seq"):
                 sess.set_flags(desc["opt_seq"][k])          # options switched between resets of one object
+            if desc.get("ipos_seq"):
+                sess.set_target_ipos(desc["ipos_seq"][k])   # the target's initial position re-assigned
             pre, out, mazes = sess.reset(tape)
             yield k, sess, pre, out, tape, mazes
 
@@ -450,6 +467,29 @@ class PlaceProp(core.Prop):
                             if rep == 1:
                                 tape = tape[:rng.randint(0, 6)]       # short tape: the rest reads as 0
                             yield self._maze_case(rows, cols, [r0, c0], tape, run_maze(rows, cols, [r0, c0], tape))
+        # 2'. what the small scopes never reach: two-digit coordinates; the target's initial position is re-assigned
+        #     between resets of one state object to cells whose coordinates read alike ((11, 1) and (1, 11))
+        for _ in range(6 if quick else 100):
+            rows, cols = rng.randint(12, 14), rng.randint(12, 14)
+            z = rng.randint(0, min(9, cols - 11))
+            p2, p1 = [11, z], [1, 10 + z]
+            n = rng.randint(3, 8)
+            agents = [{"enc": rng.choice([1, 2, 3])} for _ in range(n)]
+            kind = rng.choice(["target", "maze"])
+            combo = rng.choice([4, 8, 12, 5, 9, 13])
+            o = {"no": bool(combo & 1), "rand": False, "cluster": bool(combo & 4), "scatter": bool(combo & 8),
+                 "target": 0, "by_id": False, "barrier": [], "free": []}
+            for e in sorted({a["enc"] for a in agents}):
+                (o["barrier"] if rng.random() < 0.5 else o["free"]).append(e)
+            agents[0]["init_pos"] = p2
+            seq = [p2, p1, p2, rng.choice([p1, None])]
+            desc = {"op": "place", "world": {"rows": rows, "cols": cols, "overlap": gridw.gen_overlap(rng, [1, 2, 3]),
+                                             "agents": agents},
+                    "kind": kind, "opts": o, "ipos_seq": seq, "stream": "two-digit",
+                    "tapes": [gen_tape(rng, n, rows, cols) for _ in seq]}
+            for k, sess, pre, out, tape, mazes in self._run_desc(desc):
+                yield self._place_case(desc, sess, pre, out, tape, k)
+
         # 3. seeded random resets
         target = 2000 if quick else 60000
         done = 0
